@@ -514,7 +514,10 @@ def construct_fields_map(
                 process = True
         elif key in input_dict and key not in mapper:
             processed_input = input_dict[key]
-            process = True
+            # a null is an absent key, as it is where the field has a mapper entry
+            process = processed_input is not None or getattr(
+                cls, ENABLE_UNDEFINED, False
+            )
 
         if process:
             sub_mapper = mapper.get(
